@@ -11,6 +11,6 @@ CONSTANTS
   PoolCap = 1
   NH = 2
   Bodies = {"plain", "yield", "sleep"}
-  Cfgs <- CfgWitness
+  Cfgs <- CfgWitnessQ
 CONSTRAINT WitnessRecord
 POSTCONDITION WitnessPost
